@@ -46,7 +46,7 @@ def read_irrigation_management(
             # be applied for every day in the simulation
             df = df.reindex(ClockStruct.time_span, fill_value=0).drop("Date", axis=1)
 
-            IrrMngt.Schedule = np.array(df.values, dtype=float).flatten()
+            schedule = np.array(df.values, dtype=float).flatten()
             
         except TypeError:
             # older version of pandas with not reindex
@@ -61,18 +61,20 @@ def read_irrigation_management(
             # fill in the new dataframe with irrigation schedule
             new_df.loc[df.index]=df.Depth.values
 
-            IrrMngt.Schedule = np.array(new_df.values, dtype=float).flatten()
+            schedule = np.array(new_df.values, dtype=float).flatten()
 
     else:
 
-        IrrMngt.Schedule = np.zeros(len(ClockStruct.time_span))
-
-    IrrMngt.SMT = np.array(IrrMngt.SMT, dtype=float)
+        schedule = np.zeros(len(ClockStruct.time_span))
 
     irr_mngt_struct = IrrMngtStruct(len(ClockStruct.time_span))
     for a, v in IrrMngt.__dict__.items():
         if hasattr(irr_mngt_struct, a):
             irr_mngt_struct.__setattr__(a, v)
+    # the daily schedule and the thresholds go on the model's own struct: the user's
+    # IrrigationManagement object is left as it was given (it can be used again)
+    irr_mngt_struct.Schedule = schedule
+    irr_mngt_struct.SMT = np.array(IrrMngt.SMT, dtype=float)
 
     ParamStruct.IrrMngt = irr_mngt_struct
     ParamStruct.FallowIrrMngt = IrrMngtStruct(len(ClockStruct.time_span))
